@@ -26,6 +26,7 @@ func checkC02(c *Ctx, r *Report) {
 	r.rule("C02.R3", "CDR members take their value from the corresponding request member", 10)
 	r.rule("C02.R4", "cause for record closing: 1 on the partial edge, 0 otherwise", 2)
 	r.rule("C02.R5", "opening timestamp: BCD nibbles within 0..9 and sign octet selected by the offset's sign", 9)
+	r.rule("C02.R8", "every CHOICE value built by the module selects (Present) exactly the alternative it fills", 3)
 	r.rule("C02.R7", "every type reachable from the record round-trips through the JSON deep copy of the split (exhaustive over the type graph)", 40)
 	r.rule("C02.R6", "a record that continues a session starts with a fresh empty usage list (no shared backing array, no repeated containers)", 2)
 
@@ -36,6 +37,7 @@ func checkC02(c *Ctx, r *Report) {
 	c02Timestamp(c, r)
 	c02SplitFresh(c, r, "C02.R6")
 	c02DeepCopyFidelity(c, r, "C02.R7")
+	c02ChoiceSelectors(c, r, "C02.R8")
 }
 
 // ---- R1
@@ -903,4 +905,87 @@ func c02DeepCopyFidelity(c *Ctx, r *Report, rule string) {
 	}
 	walk(root, "CHFRecord")
 	r.count("record_types_in_copy_graph", nTypes)
+}
+
+// ---- R8: a CHOICE value built by the module selects the alternative it fills
+//
+// The generated CHOICE types are structs { Present int; alternatives... }; the
+// encoder uses Present as the index of the member to encode.  Wherever module
+// code builds such a value (composite literal or member-wise), the constant
+// stored into Present must be the index of the member that is filled, and that
+// member must be the only one filled - otherwise the encoder picks a nil member
+// (marshalling fails: every later update of the session is refused and its
+// usage recorded nowhere) or encodes the wrong alternative.
+func c02ChoiceSelectors(c *Ctx, r *Report, rule string) {
+	n := 0
+	for _, f := range c.ModFuncs {
+		if f.Pkg != nil && strings.HasSuffix(f.Pkg.Pkg.Path(), "/cdr/asn") {
+			continue
+		}
+		cnt := 0
+		eachInstr(f, func(_ *ssa.BasicBlock, _ int, ins ssa.Instruction) {
+			al, ok := ins.(*ssa.Alloc)
+			if !ok {
+				return
+			}
+			nt := namedOf(al.Type())
+			if nt == nil || nt.Obj().Pkg() == nil || nt.Obj().Pkg().Path() != cdrTypePath {
+				return
+			}
+			st, ok := nt.Underlying().(*types.Struct)
+			if !ok || st.NumFields() < 2 || st.Field(0).Name() != "Present" {
+				return
+			}
+			// stores into the members of this object
+			var present []*ssa.Store
+			filled := map[int]*ssa.Store{}
+			for _, ref := range *al.Referrers() {
+				fa, ok := ref.(*ssa.FieldAddr)
+				if !ok {
+					continue
+				}
+				for _, r2 := range *fa.Referrers() {
+					sto, ok := r2.(*ssa.Store)
+					if !ok || sto.Addr != ssa.Value(fa) {
+						continue
+					}
+					if fa.Field == 0 {
+						present = append(present, sto)
+					} else if !isNilConst(sto.Val) {
+						filled[fa.Field] = sto
+					}
+				}
+			}
+			if len(present) == 0 && len(filled) == 0 {
+				return // declared, filled elsewhere (e.g. by the decoder)
+			}
+			cnt++
+			n++
+			key := fmt.Sprintf("%s|CHOICE %s #%d", fnKey(f), nt.Obj().Name(), cnt)
+			if len(present) != 1 {
+				r.viol(rule, key, posOf(c, al), fmt.Sprintf("the CHOICE value has %d assignments of Present (expected exactly one constant)", len(present)))
+				return
+			}
+			k, isC := constInt(present[0].Val)
+			if !isC {
+				r.viol(rule, key, posOf(c, present[0]), "Present is not a constant: the selected alternative cannot be compared with the member that is filled")
+				return
+			}
+			var names []string
+			for idx := range filled {
+				names = append(names, st.Field(idx).Name())
+			}
+			sort.Strings(names)
+			okSel := len(filled) == 1 && filled[int(k)] != nil
+			want := "?"
+			if k >= 1 && int(k) < st.NumFields() {
+				want = st.Field(int(k)).Name()
+			}
+			r.check(okSel, rule, key, posOf(c, present[0]), fmt.Sprintf("Present = %d selects %s, the member that is filled", k, want),
+				fmt.Sprintf("Present = %d selects the alternative %s, but the member(s) filled are {%s}: the encoder uses Present as the member index, so it finds a nil alternative (marshalling fails, the session's later updates are refused) or encodes another value than the one given", k, want, strings.Join(names, ", ")))
+		})
+	}
+	if n == 0 {
+		r.viol(rule, "choices", "", "no CHOICE value is built by module code (anchor moved?)")
+	}
 }
